@@ -1,5 +1,6 @@
 import RadicaleProofs.SyncInv
 import RadicaleProofs.SyncLive
+import RadicaleProofs.SyncIdem
 /-
   C07 — sync-token deltas always bring a client to the server's current state.
 
@@ -137,6 +138,31 @@ theorem c07_not_refused_early (cfg : Cfg) (hmax : cfg.maxAge ≠ 0) (s s1 : Stat
   · simp
   · simp [hm']
 
+/-- **up-to-date token.**  The token a sync hands out, presented again before anything else happens, is
+    answered with itself and the empty change list (after any history before the first sync). -/
+theorem c07_up_to_date (cfg : Cfg) (hmax : cfg.maxAge ≠ 0) (ops0 : List Op) (a : Arg) (s1 : State) (T : Snapshot) (ch : List Nat)
+    (issue : sync cfg (run cfg State.init ops0) a = (s1, .ok T ch)) :
+    (sync cfg s1 (.tok T)).2 = .ok T [] := by
+  have hs0 : Inv (run cfg State.init ops0) := run_inv cfg _ ops0 inv_init
+  obtain ⟨hm, hh, hr, hn⟩ := sync_ok_state cfg hmax _ s1 a T ch issue
+  have hst := survey_stable cfg hmax _ s1 hs0 hm hh hr hn
+  have hT := (sync_ok_token cfg _ s1 a T ch issue).1
+  simp only [sync]
+  rw [hst, ← hT]
+  simp
+
+/-- PROPFIND right after a REPORT shows the token the REPORT returned -/
+theorem c07_propfind_after_report (cfg : Cfg) (hmax : cfg.maxAge ≠ 0) (ops0 : List Op) (a : Arg) (s1 : State) (T : Snapshot)
+    (ch : List Nat) (issue : sync cfg (run cfg State.init ops0) a = (s1, .ok T ch)) :
+    ∃ ch', (sync cfg s1 .none).2 = .ok T ch' := by
+  have hs0 : Inv (run cfg State.init ops0) := run_inv cfg _ ops0 inv_init
+  obtain ⟨hm, hh, hr, hn⟩ := sync_ok_state cfg hmax _ s1 a T ch issue
+  have hst := survey_stable cfg hmax _ s1 hs0 hm hh hr hn
+  have hT := (sync_ok_token cfg _ s1 a T ch issue).1
+  simp only [sync]
+  rw [hst, ← hT]
+  exact ⟨_, rfl⟩
+
 /-- a malformed token is refused before anything is read or written -/
 theorem c07_malformed_refused (cfg : Cfg) (s : State) : sync cfg s .malformed = (s, .refused) := rfl
 
@@ -152,5 +178,14 @@ example :
     (match r.2, (sync cfg s1 (.tok (survey cfg s0).2)).2 with
      | .ok t c, .ok _ c' => c == [1] && c' == [1, 2] && t == (survey cfg s0).2
      | _, _ => false) = true := by decide +kernel
+
+-- the history of finding F23 (a remembered deletion expires): the token handed out stays valid
+example :
+    let cfg : Cfg := ⟨1000, false, false⟩
+    let s0 := run cfg State.init [.put 1 10, .del 1, .tick 1000]
+    let r := sync cfg s0 .none
+    (match r.2 with
+     | .ok t _ => (sync cfg r.1 (.tok t)).2 == .ok t []
+     | _ => false) = true := by decide +kernel
 
 end C07
